@@ -2,6 +2,7 @@ import AsyncVerif.Impl.Aggregations
 import AsyncVerif.Proofs.ReleaseMore
 import AsyncVerif.Proofs.Release
 import AsyncVerif.Proofs.Chain
+import AsyncVerif.Proofs.ChainCancel
 /-!
 # C04 — owned async iterators are released when a tool finishes, fails or is closed
 
@@ -142,6 +143,36 @@ theorem C04_chain_closed (srcs : List Nat) (fuel : Nat) (w : World)
     rw [ho] at this h
     cases r2 <;> simpa using this
 
+/-- The owner's `chain.aclose()` (in the model: `Impl.closeOwned srcs`, i.e. `for it in self._owned_iterators:
+    await it.aclose()`; closing the already finished `_chain_iterator` generator is a no-op) run after **any** run
+    of the handle — exhausted, closed, raised, even cut off by the model's fuel: every argument is released. -/
+theorem C04_chain_owner_close (srcs : List Nat) (fuel : Nat) (w : World) :
+    ∀ s ∈ srcs, Released ((Impl.closeOwned srcs (Impl.chain srcs fuel w).2).2.srcs s) :=
+  closeOwned_releases srcs _
+
+/-- What is open when `chain` has stopped (for whatever reason other than the model's fuel): an argument that is
+    not released at that point was never touched — it is exactly as it was handed in.  So the only arguments
+    `chain` leaves open are the ones it had not started (known finding D19). -/
+theorem C04_chain_unreleased_untouched (srcs : List Nat) (fuel : Nat) (w : World)
+    (h : (Impl.chain srcs fuel w).1 ≠ .error .outOfFuel) :
+    ∀ s ∈ srcs, Released ((Impl.chain srcs fuel w).2.srcs s) ∨ (Impl.chain srcs fuel w).2.srcs s = w.srcs s := by
+  by_cases hg : (Impl.chain srcs fuel w).1 = .error .genExit
+  · exact fun s hs => Or.inl (C04_chain_closed srcs fuel w hg s hs)
+  · rw [chain_eq_chainIter srcs fuel w hg] at h ⊢
+    exact chainIter_unreleased_untouched fuel srcs w h
+
+/-- Known finding D19, formally.  `chain`'s iterator **raises** `x` while it is advanced (a fault of an argument,
+    an exception thrown in by the consumer, a cancellation — anything but the model's fuel).  At that point the
+    arguments reached so far are released (each in its own scope) but the arguments not yet started are still as
+    they were handed in, possibly open (first conjunct: released *or untouched*).  They are released by the owner's
+    `chain.aclose()` (second conjunct), which is what the check verifies. -/
+theorem C04_chain_raised (srcs : List Nat) (fuel : Nat) (w : World) (x : Exc)
+    (h : (Impl.chain srcs fuel w).1 = .error x) (hx : x ≠ .outOfFuel) :
+    (∀ s ∈ srcs, Released ((Impl.chain srcs fuel w).2.srcs s) ∨ (Impl.chain srcs fuel w).2.srcs s = w.srcs s)
+    ∧ ∀ s ∈ srcs, Released ((Impl.closeOwned srcs (Impl.chain srcs fuel w).2).2.srcs s) := by
+  refine ⟨C04_chain_unreleased_untouched srcs fuel w ?_, C04_chain_owner_close srcs fuel w⟩
+  rw [h]; intro hc; injection hc with hc; exact hx hc
+
 theorem C04_merge (fn : Option Nat) (reverse : Bool) (srcs : List Nat) (fuel : Nat) (w : World)
     (h : (Impl.merge fn reverse srcs fuel w).1 ≠ .error .outOfFuel) :
     ∀ s ∈ srcs, Released ((Impl.merge fn reverse srcs fuel w).2.srcs s) :=
@@ -185,5 +216,31 @@ theorem C04_set (s fuel : Nat) (w : World) (h : (Impl.set s fuel w).1 ≠ .error
 
 theorem C04_dict (s fuel : Nat) (w : World) (h : (Impl.dict s fuel w).1 ≠ .error .outOfFuel) :
     Released ((Impl.dict s fuel w).2.srcs s) := scopedIter_released s _ w h
+
+/-! Non-vacuity for the `chain` theorems: source 0 (an async generator) fails at its second use, sources 1
+    (async generator) and 2 (class-based with `aclose`) were not started. -/
+section Examples
+
+private def wChain : World where
+  srcs := fun s =>
+    if s = 0 then { kind := .agen, script := [.item (.obj 1 5), .err 7] }
+    else if s = 1 then { kind := .agen, script := [.item (.obj 3 1)] }
+    else { kind := .aobj, script := [.item (.obj 4 2)] }
+  fns := fun _ _ args => .ok (args.headD .none)
+  calls := fun _ => 0
+  cons := .run 5 .exhaust
+  vis := []
+  rel := []
+
+example : (Impl.chain [0, 1, 2] 10 wChain).1 = .error (.user 7) := by rfl
+example : ((Impl.chain [0, 1, 2] 10 wChain).2.srcs 0).status = .failed := by rfl
+example : (Impl.chain [0, 1, 2] 10 wChain).2.srcs 1 = wChain.srcs 1 := by rfl
+example : ((Impl.chain [0, 1, 2] 10 wChain).2.srcs 1).status = .fresh := by rfl
+example : ∀ s ∈ [0, 1, 2], Released ((Impl.closeOwned [0, 1, 2] (Impl.chain [0, 1, 2] 10 wChain).2).2.srcs s) :=
+  (C04_chain_raised [0, 1, 2] 10 wChain (.user 7) rfl (by simp)).2
+example : ((Impl.closeOwned [0, 1, 2] (Impl.chain [0, 1, 2] 10 wChain).2).2.srcs 1).status = .closed := by rfl
+example : ((Impl.closeOwned [0, 1, 2] (Impl.chain [0, 1, 2] 10 wChain).2).2.srcs 2).closes = 1 := by rfl
+
+end Examples
 
 end AsyncVerif
